@@ -4,7 +4,9 @@ The transcription mirrors the TLA+ actions one for one (same variables, same con
 that it can be cross-checked against TLC state by state (simulation traces) and behaviour by
 behaviour (the `out` emitted by TLC at `done`, the observable states of EmitStep).  It generalises
 the model to any shape, threshold and (exactly representable) omega sequence, which is what judges
-the long random replays that TLC cannot enumerate.
+the long random replays that TLC cannot enumerate.  Intensities and omegas may be ints or
+Fractions (exact values of float32 inputs); `maxfix` is the spec's MAXFIX (rule for the maximum
+pixel of a blob whose pixels are all <= 0).
 
 Rows are lists of 22 numbers in the blobs.h column order s_1 .. bb_mn_o (FIELDS).
 """
@@ -22,7 +24,16 @@ FIRST = -1
 ZERO = [0] * NROW
 
 
-def add_pixel(b, s, f, v, o):
+def exact(x):
+    """int for an integral value, else the exact Fraction of the float"""
+    if isinstance(x, (int, Fraction)):
+        return x
+    x = float(x)
+    return int(x) if x.is_integer() else Fraction(x)
+
+
+def add_pixel(b, s, f, v, o, maxfix=False):
+    first = maxfix and b[N_] == 0
     b[N_] += 1
     b[I_] += v
     b[I2_] += v * v
@@ -35,7 +46,7 @@ def add_pixel(b, s, f, v, o):
     b[OOI_] += o * o * v
     b[SOI_] += s * o * v
     b[FOI_] += f * o * v
-    if v > b[MXI_]:
+    if v > b[MXI_] or first:
         b[MXI_] = v
         b[MXF_] = f
         b[MXS_] = s
@@ -95,7 +106,7 @@ def label2d(img, ns, nf, thr):
     return lab, n
 
 
-def props(img, lab, n, om, ns, nf):
+def props(img, lab, n, om, ns, nf, maxfix=False):
     rows = []
     for _ in range(n):
         r = [0] * NROW
@@ -109,7 +120,7 @@ def props(img, lab, n, om, ns, nf):
     for p in range(ns * nf):
         k = lab[p]
         if 0 < k <= n:
-            add_pixel(rows[k - 1], p // nf, p % nf, img[p], om)
+            add_pixel(rows[k - 1], p // nf, p % nf, img[p], om, maxfix)
     return rows
 
 
@@ -134,8 +145,9 @@ def _makeunion(S, r1, r2):
 class Model(object):
     """state machine of Merge3D.tla; `trace` (a list) receives (action, snapshot) per action"""
 
-    def __init__(self, ns, nf, thr=0, omega=None, trace=None):
+    def __init__(self, ns, nf, thr=0, omega=None, trace=None, maxfix=False):
         self.ns, self.nf, self.thr = ns, nf, thr
+        self.maxfix = maxfix
         self.npx = ns * nf
         self.omega = omega or (lambda k: k)          # k = 1, 2, ...
         self.frames = []
@@ -213,7 +225,7 @@ class Model(object):
         self.frames.append(img)
         self.blim = lab
         self.npk = n
-        self.res = props(img, lab, n, self.omega(k), self.ns, self.nf) if n > 0 else []
+        self.res = props(img, lab, n, self.omega(k), self.ns, self.nf, self.maxfix) if n > 0 else []
         self.pc = "searched"
         self._did("Peaksearch")
 
@@ -414,18 +426,26 @@ class Model(object):
         self._did("Relabel")
 
     # -- Finalise
-    def finalise(self):
-        assert self.pc == "idle" and len(self.frames) >= 1
+    def finalise(self, again=False):
+        """again=True: finalise() on an object that was already finalised (not an action of the
+        specification; the transcription of what labelimage.finalise does then, used only for the
+        recorded observations)"""
+        assert (self.pc == "done" if again else self.pc == "idle") and len(self.frames) >= 1
         self.onlast = 1
         if self.lastres:
             self._emit(self.lastres)
         self.pc = "done"
         self._did("Finalise")
 
+    def reopen(self):
+        """peaksearch() on a finalised object simply carries on (observations only)"""
+        assert self.pc == "done"
+        self.pc = "idle"
 
-def run_model(frames, ns, nf, thr=0, omega=None, trace=None):
+
+def run_model(frames, ns, nf, thr=0, omega=None, trace=None, maxfix=False):
     """whole behaviour: peaksearch+mergelast per frame, then finalise.  Returns the Model."""
-    m = Model(ns, nf, thr, omega, trace)
+    m = Model(ns, nf, thr, omega, trace, maxfix)
     for f in frames:
         m.peaksearch(f)
         m.mergelast()
@@ -499,38 +519,68 @@ def components3d(frames, ns, nf, thr, omega):
 
 
 CORE = [n for n in FIELDS if n not in ("mxf", "mxs", "mxo")]
+APPROX = ("I2", "oI", "ooI", "soI", "foI")      # sums that may be rounded in double (see approx_tolerances)
+UNIT = 2.3e-16                                   # 2 x the unit round-off of a double
 
 
-def judge_against_components(rows, frames, ns, nf, thr, omega):
+def approx_tolerances(n, sum_abs_i, i2, omax, ns, nf):
+    """rigorous bound on |double accumulation - exact sum| for the columns whose terms are not exactly
+    representable (I*I beyond 2^53, products with a 24-bit omega): n terms, each product rounded at
+    most twice, each addition once -> (n + 8) * UNIT * (bound on the sum of |terms|)."""
+    k = (n + 8) * UNIT
+    a = abs(sum_abs_i)
+    return {"I2": k * abs(i2), "oI": k * a * omax, "ooI": k * a * omax * omax,
+            "soI": k * a * omax * ns, "foI": k * a * omax * nf}
+
+
+def judge_against_components(rows, frames, ns, nf, thr, omega, approx=False, asis=False):
     """rows: list of 22-lists (emitted peaks).  Returns None if they are in one-to-one
-    correspondence with the 3-D components (the property), else a description."""
+    correspondence with the 3-D components (the property), else a description.
+    approx: the APPROX columns are compared within approx_tolerances instead of exactly (only for
+            families with all in-blob intensities > 0).
+    asis:   the max-pixel clause only for components whose maximum is > 0; for the others the value
+            0 is expected (Merge3D.tla, MAXFIX = FALSE / DoneOKAsIs)."""
     comps = components3d(frames, ns, nf, thr, omega)
     if len(rows) != len(comps):
         return "number of emitted peaks %d != number of 3-D components %d" % (len(rows), len(comps))
+    keyf = [n for n in CORE if not (approx and n in APPROX)]
+    omax = max([abs(omega(k + 1)) for k in range(len(frames))] + [0]) if approx else 0
     pool = {}
     for c in comps:
-        pool.setdefault(tuple(c[n] for n in CORE), []).append(c)
+        c["free"] = asis and c["mxI"] <= 0
+        if c["free"]:
+            c["mxI"] = 0
+        pool.setdefault(tuple(c[n] for n in keyf), []).append(c)
     for r in rows:
         d = dict(zip(FIELDS, r))
-        key = tuple(d[n] for n in CORE)
+        key = tuple(d[n] for n in keyf)
         lst = pool.get(key)
         if not lst:
             return "emitted peak %r matches no (remaining) 3-D component" % (d,)
-        hit = None
+        hit, why = None, "max position is not a maximal voxel of its component"
         for c in lst:
-            if (d["mxo"], d["mxs"], d["mxf"]) in c["argmax"]:
+            if approx:
+                tol = approx_tolerances(c["n"], c["I"], c["I2"], omax, ns, nf)
+                off = [n for n in APPROX if abs(d[n] - c[n]) > tol[n]]
+                if off:
+                    why = "sums %r differ from the component's by more than the rounding bound" % (off,)
+                    continue
+            if c["free"] or (d["mxo"], d["mxs"], d["mxf"]) in c["argmax"]:
                 hit = c
                 break
         if hit is None:
-            return "emitted peak %r: max position is not a maximal voxel of its component" % (d,)
+            return "emitted peak %r: %s" % (d, why)
         lst.remove(hit)
     return None
 
 
 def exact_moments(r):
-    """compute_moments from exact sums: dict of exact Fractions / (value under sqrt) for one row."""
+    """compute_moments from exact sums: dict of exact Fractions / (value under sqrt) for one row;
+    None when the summed intensity is 0 (only possible with a negative threshold)."""
     import math
     n, tc = Fraction(r[N_]), Fraction(r[I_])
+    if tc == 0:
+        return None             # intensity-weighted centroid undefined (the code divides 0/0 -> nan)
     out = {"avg_i": tc / n}
     uf = Fraction(r[FI_]) / tc
     us = Fraction(r[SI_]) / tc
